@@ -16,7 +16,7 @@ def _ensures(C, res):
                                        [MP(res.raw(k).t, res.raw(k2).t)])),
           ('at_most_count', res.len <= cnt)]
     e = C._e
-    fl, so = getattr(e, 'last_flatten', None), e.last_sorted
+    fl, so = C.note('last_flatten'), C.note('last_sorted')
     if C.has('F') and fl is not None and so is not None:
         # witnesses: input peak (a,b) sits at index pinv(pos(a,b)) of the sorted order; result element k comes
         # from flattened index pi(k)
